@@ -79,6 +79,22 @@ Proof.
     rewrite deg_plus, EP.
     destruct (Rlt_dec 90 _); [lra|]. destruct (Rlt_dec _ (-90)); [ring|lra].
 Qed.
+
+(* semidiameter: the code's asin argument cos lon' cos lat' sin s / n is sin s / |w| *)
+Lemma ecl_semi_eq semi :
+  ecl_semi_arg lon lat semi obs eps sid dist h (ecl_lat lon lat obs eps sid dist h)
+  = sin (semi * (PI / 180)) / sqrt (n * n + Y * Y + Z * Z).
+Proof.
+  assert (Hh := ecl_hyp_pos). assert (Hnn := ecl_nn_pos).
+  unfold ecl_semi_arg. destruct ecl_lon_trig as [Lc _]. rewrite Lc. fold n. fold Y.
+  rewrite ecl_lat_eq, deg_rad_inv.
+  rewrite (cos_atan2 Y n Hnn). fold hyp.
+  assert (Hhh : hyp * hyp = n * n + Y * Y) by (unfold hyp; apply sqrt_sqrt; lra).
+  assert (HN : 0 < hyp * hyp + Z * Z) by (generalize (Rle_0_sqr Z); unfold Rsqr; nra).
+  rewrite (cos_atan2 Z hyp HN). rewrite Hhh.
+  assert (0 < sqrt (n * n + Y * Y + Z * Z)) by (apply sqrt_lt_R0; lra).
+  field. repeat split; lra.
+Qed.
 End EclGeo.
 
 (* the displacement: u = (cos l cos b, sin l cos b, sin b) geocentric direction (ecliptical
@@ -136,4 +152,40 @@ Proof.
   unfold vx, vy, vz. unfold l'. rewrite Lc, Ls, Elat.
   destruct V as [V1 V2]. fold q in V1.
   split; [exact V1|]. split; [exact Hq|]. split; [exact H1 | exact V2].
+Qed.
+
+(* |w| between 1 - q and 1 + q (squared), q = rho sin(8.794'')/distance: the topocentric distance in
+   units of the geocentric one *)
+Theorem ecliptical_norm_bounds lon lat obs eps sid dist h :
+  let rc := ecl_rc obs h in let rs := ecl_rs obs h in
+  let q := sqrt (rc * rc + rs * rs) * Rabs (ecl_k dist) in
+  let N2 := ecl_n lon lat obs sid dist h * ecl_n lon lat obs sid dist h
+            + ecl_Y lon lat obs eps sid dist h * ecl_Y lon lat obs eps sid dist h
+            + ecl_Z lat obs eps sid dist h * ecl_Z lat obs eps sid dist h in
+  (1 - q) * (1 - q) <= N2 <= (1 + q) * (1 + q).
+Proof.
+  intros rc rs q N2.
+  set (k := ecl_k dist) in *.
+  set (ux := cos (rad lon) * cos (rad lat)). set (uy := sin (rad lon) * cos (rad lat)). set (uz := sin (rad lat)).
+  set (ox := rc * cos (rad sid)).
+  set (oy := rs * sin (rad eps) + rc * cos (rad eps) * sin (rad sid)).
+  set (oz := rs * cos (rad eps) - rc * sin (rad eps) * sin (rad sid)).
+  assert (Hu : ux * ux + uy * uy + uz * uz = 1).
+  { unfold ux, uy, uz. generalize (sq_sc' (rad lon)) (sq_sc' (rad lat)). intros A1 A2.
+    replace (cos (rad lon) * cos (rad lat) * (cos (rad lon) * cos (rad lat)) + sin (rad lon) * cos (rad lat) * (sin (rad lon) * cos (rad lat)))
+      with ((sin (rad lon) * sin (rad lon) + cos (rad lon) * cos (rad lon)) * (cos (rad lat) * cos (rad lat))) by ring.
+    rewrite A1. lra. }
+  assert (Eo : ox * ox + oy * oy + oz * oz = rc * rc + rs * rs).
+  { unfold ox, oy, oz. generalize (sq_sc' (rad sid)) (sq_sc' (rad eps)). intros A1 A2.
+    replace (rc * cos (rad sid) * (rc * cos (rad sid))
+             + (rs * sin (rad eps) + rc * cos (rad eps) * sin (rad sid)) * (rs * sin (rad eps) + rc * cos (rad eps) * sin (rad sid))
+             + (rs * cos (rad eps) - rc * sin (rad eps) * sin (rad sid)) * (rs * cos (rad eps) - rc * sin (rad eps) * sin (rad sid)))
+      with (rc * rc * (cos (rad sid) * cos (rad sid))
+            + (rs * rs + rc * rc * (sin (rad sid) * sin (rad sid))) * (sin (rad eps) * sin (rad eps) + cos (rad eps) * cos (rad eps))) by ring.
+    rewrite A2. replace (cos (rad sid) * cos (rad sid)) with (1 - sin (rad sid) * sin (rad sid)) by lra. ring. }
+  pose proof (vN2_bounds ux uy uz ox oy oz k Hu) as V. cbv zeta in V.
+  assert (En : ux - k * ox = ecl_n lon lat obs sid dist h) by (unfold ux, ox, ecl_n, rad; fold rc; fold k; ring).
+  assert (EY : uy - k * oy = ecl_Y lon lat obs eps sid dist h) by (unfold uy, oy, ecl_Y, rad; fold rc; fold rs; fold k; ring).
+  assert (EZ : uz - k * oz = ecl_Z lat obs eps sid dist h) by (unfold uz, oz, ecl_Z, rad; fold rc; fold rs; fold k; ring).
+  rewrite En, EY, EZ, Eo in V. exact V.
 Qed.
